@@ -368,6 +368,12 @@ def rule_make(rep):
         if k in ("CXXConstructExpr", "CXXTemporaryObjectExpr") and len(ks) == 1 and ir.strip(ks[0]).get("kind") == "DeclRefExpr" and \
                 (d.by_id.get((ir.strip(ks[0]).get("referencedDecl") or {}).get("id")) or {}).get("kind") == "VarDecl":
             return defined_by(fn, ks[0], vparam)            # the move/copy of a returned local
+        if k in ("CXXTemporaryObjectExpr", "CXXConstructExpr") and len(ks) == 1:
+            # copy / move construction from a temporary of the same type (what C++14 shows where C++17 elides the copy)
+            a0 = ir.strip(ks[0])
+            if a0.get("kind") in ("CXXTemporaryObjectExpr", "CXXFunctionalCastExpr", "CXXConstructExpr", "CXXBindTemporaryExpr", "InitListExpr") and \
+                    ir.qtype(a0).replace("const ", "") == ir.qtype(e).replace("const ", ""):
+                return defined_by(fn, a0, vparam)
         if k in ("CXXTemporaryObjectExpr", "CXXConstructExpr"):
             args = [a for a in ks if a.get("kind") != "CXXDefaultArgExpr"]
             if not args:
